@@ -17,6 +17,7 @@ def R0 : Resolver where
   unop _ _ := none
   binop _ _ _ := none
   listLit _ := some [.list]
+  attr _ _ := none
 
 /-- Literals evaluate to a value of their own kind; `def` creates a function that promises nothing. -/
 def sem0 : Sem where
@@ -26,6 +27,7 @@ def sem0 : Sem where
   compare _ _ _ _ := False
   unop _ _ _ := False
   binop _ _ _ _ := False
+  attr _ _ _ := False
   fnRet _ ρ := ρ = .any
   argVal _ _ := False
 
@@ -45,6 +47,7 @@ theorem truthful0 : Truthful R0 sem0 env0 where
   compare := by intro _ _ _ _ _ _ _ h; simp [R0] at h
   unop := by intro _ _ _ _ _ h; simp [R0] at h
   binop := by intro _ _ _ _ _ _ _ h; simp [R0] at h
+  attr := by intro _ _ _ _ _ h; simp [R0] at h
   listLit := by
     intro ts T vs h _
     simp only [R0, Option.some.injEq] at h
